@@ -230,3 +230,12 @@ package channel
 //@ func (*Channel).Open [C07 C10]
 //@   requires RI(c.Q)
 //@   ensures #failed-open-closes-the-transport result != nil && implOpened ==> implClosed
+
+// assumed here, verified nowhere yet: the two outer exchange functions used by the network driver
+//@ func (*Channel).GetPrompt
+//@   noverify
+//@   modifies wire, rd, c.Q.queue, c.Q.depth, quiet, alloc()
+//@   ensures result.1 != nil ==> len(result.0) == 0
+//@ func (*Channel).SendInteractive
+//@   noverify
+//@   modifies wire, rd, sent, c.Q.queue, c.Q.depth, quiet, echoed, optlog, alloc()
